@@ -63,6 +63,7 @@ type srvEnv struct {
 	holdTracer   map[int]chan struct{} // request id -> released
 	tracerHeld   map[int]bool
 	reject       map[int]bool
+	ctxCancelled bool // the scenario has cancelled the context it gave to Serve
 }
 
 func (e *srvEnv) with(f func()) {
@@ -101,6 +102,13 @@ func (h *srvHandler) Handle(ctx context.Context, received packet.Request) (packe
 	case 2:
 		if block != nil {
 			<-block
+		}
+		// a handler that looks at its context when its backend has answered: unless the scenario cancelled the context it
+		// gave to Serve, nobody has a reason to cancel a handler that was started
+		scenarioCancelled := false
+		h.e.with(func() { scenarioCancelled = h.e.ctxCancelled })
+		if ctx.Err() != nil && !scenarioCancelled {
+			return nil, errors.New("handler: the context of a started handler was cancelled")
 		}
 	case 3:
 		panic("handler panic requested by the scenario")
@@ -904,6 +912,7 @@ func runSrv(ts []string) string {
 			}
 		case "x":
 			cancelled = true
+			e.with(func() { e.ctxCancelled = true })
 			cancel()
 			pollServe(true)
 			o = serveResult
@@ -925,6 +934,7 @@ func runSrv(ts []string) string {
 		case "xh":
 			// the context given to Serve is cancelled while a held accept callback keeps Serve from returning: no wait here
 			cancelled = true
+			e.with(func() { e.ctxCancelled = true })
 			cancel()
 			o = "ok"
 		case "g":
